@@ -26,6 +26,7 @@ import traceback
 
 HOME = os.environ.get("PYABV_HOME", os.path.dirname(os.path.dirname(os.path.abspath(__file__))))
 REPO = os.environ.get("PYABV_REPO", "/repo")
+OUT = os.environ.get("PYABV_OUT", HOME)  # evidence/ and replays/ live here (redirected for scratch-tree runs)
 PYTHON = os.environ.get("PYABV_PYTHON", "/venv/bin/python")
 ALL_IDS = ["C%02d" % i for i in range(1, 19)]
 MAX_HASHES_PER_SHARD = 400_000
@@ -320,7 +321,7 @@ def spec_of(pid):
 
 
 def run_shards(pid, tier, seed, nshards, timeout):
-    parts_dir = os.path.join(HOME, "evidence", ".parts", pid)
+    parts_dir = os.path.join(OUT, "evidence", ".parts", pid)
     os.makedirs(parts_dir, exist_ok=True)
     for fn in os.listdir(parts_dir):
         os.unlink(os.path.join(parts_dir, fn))
@@ -387,7 +388,7 @@ def finish(pid, tier, seed, mod, merged, problems, t0, nshards):
         except Exception as e:
             reasons.append("finalize failed: " + repr(e))
 
-    os.makedirs(os.path.join(HOME, "replays"), exist_ok=True)
+    os.makedirs(os.path.join(OUT, "replays"), exist_ok=True)
     replay_paths, shown, per_mech = [], [], {}
     for v in real:
         m = v.get("mechanism")
@@ -396,7 +397,7 @@ def finish(pid, tier, seed, mod, merged, problems, t0, nshards):
         per_mech[m] = per_mech.get(m, 0) + 1
         blob = json.dumps(dict(property=pid, tier=tier, **v), sort_keys=True, ensure_ascii=True)
         name = f"{pid}-{hashlib.sha256(blob.encode()).hexdigest()[:12]}.json"
-        path = os.path.join(HOME, "replays", name)
+        path = os.path.join(OUT, "replays", name)
         with open(path, "w") as f:
             f.write(blob)
         replay_paths.append(path)
@@ -428,11 +429,11 @@ def finish(pid, tier, seed, mod, merged, problems, t0, nshards):
         assumptions=list(getattr(mod, "ASSUMPTIONS", [])), wall_s=round(time.time() - t0, 2),
         violations=nviol,
     )
-    os.makedirs(os.path.join(HOME, "evidence"), exist_ok=True)
-    tmp = os.path.join(HOME, "evidence", f".{pid}.json.tmp")
+    os.makedirs(os.path.join(OUT, "evidence"), exist_ok=True)
+    tmp = os.path.join(OUT, "evidence", f".{pid}.json.tmp")
     with open(tmp, "w") as f:
         json.dump(ev, f, indent=1, ensure_ascii=True, sort_keys=False)
-    os.replace(tmp, os.path.join(HOME, "evidence", f"{pid}.json"))
+    os.replace(tmp, os.path.join(OUT, "evidence", f"{pid}.json"))
 
     for key, vs in sorted(known_hit.items()):
         print(f"KNOWN-FINDING: property={pid} {open_keys[key]['what']} [{key}; reproduced {mech_counts.get(key, len(vs))}x this run]")
@@ -475,7 +476,11 @@ def main(argv):
         return 2
     seed = int(os.environ.get("VERIF_SEED", "0") or 0)
     t0 = time.time()
-    mod = spec_of(pid)
+    try:
+        mod = spec_of(pid)
+    except ImportError as e:
+        print(f"INCONCLUSIVE property={pid} reason=no check module for this property ({e})")
+        return 2
     nshards = nshards_for(mod, tier)
     timeout = getattr(mod, "WATCHDOG_S", {"quick": 900, "thorough": 5400})[tier]
     parts, problems, parts_dir = run_shards(pid, tier, seed, nshards, timeout)
